@@ -1,12 +1,244 @@
 /-
-  C16 — flush emits writes in an order the database accepts.  (thin first version)
+  C16 — flush emits writes in an order the database accepts.
+
+  Property theorems about the executable model `Model/SaveOrder.lean` (mirror of `Entity._save_`,
+  `Entity._save_principal_objects_` and the body of `SessionCache.flush`), for ARBITRARY status vectors, reference
+  graphs and queues (no well-formedness assumed unless stated).
 -/
-import PonyVerif.Model.SaveOrder
+import PonyVerif.Lemmas.SaveOrder
 namespace PonyVerif.Props.C16
 open PonyVerif.Model.SaveOrder
 
-/-- many-to-many link rows are removed before and added after all object writes -/
-theorem C16_m2m_bracket (ss : Session) (ws : List Write) (h : flush ss = .ok ws) :
-    ∃ mid, ws = ss.removed.map (fun p => Write.unlink p.1 p.2) ++ mid ++ ss.added.map (fun p => Write.link p.1 p.2) := by
-  sorry
+/-- `x` holds, in an attribute whose value its INSERT / UPDATE statement writes, a reference to the object `y` that is
+    still unsaved (`created`) when the flush starts -/
+def Edge (g : Graph) (status : List Status) (x y : Nat) : Prop := EdgeS g status x y
+
+/-- the statement the flush has to emit for `x` -/
+def stmt (status : List Status) (x : Nat) : Write := stmtOf (statusOf status x) x
+
+/-- `a` is executed strictly before `b` -/
+def Before (a b : Write) (ws : List Write) : Prop := ∃ l1 l2 l3, ws = l1 ++ a :: l2 ++ b :: l3
+
+/-- the queue lists only objects that have something to save (what `objects_to_save` contains in a live session) -/
+def QueueWellFormed (status : List Status) (q : List (Option Nat)) : Prop :=
+  ∀ x, some x ∈ q → Pending (statusOf status x)
+
+theorem saveOrder_ok {status : List Status} {g : Graph} {q : List (Option Nat)} {ws : List Write}
+    (h : saveOrder status g q = .ok ws) :
+    Trace g { status := status, out := [] } { status := (match saveQueue g (fuelFor status) q { status := status, out := [] } with | .ok s => s.status | .error _ => []), out := ws } ws
+    ∧ ∀ x, some x ∈ q → Pending (statusOf status x) ∧ stmt status x ∈ ws := by
+  unfold saveOrder at h
+  cases hr : saveQueue g (fuelFor status) q { status := status, out := [] } with
+  | error e => simp [hr] at h
+  | ok s =>
+    simp [hr] at h
+    obtain ⟨ws', ho, T, hq⟩ := run_trace (pre := []) (by simp) hr
+    simp at ho
+    have : ws' = ws := by rw [← ho, h]
+    subst this
+    refine ⟨?_, hq⟩
+    have hs : s = { status := s.status, out := ws' } := by cases s; simp_all
+    rw [← hs]; exact T
+
+/-! ### (1) topological order, each object exactly once -/
+
+/-- If the flush succeeds, every referenced unsaved object is INSERTed strictly before the statement of the
+    referencing object (INSERT of a created object, UPDATE of a modified one): the order immediate FK enforcement needs. -/
+theorem C16_topological (status : List Status) (g : Graph) (q : List (Option Nat)) (ws : List Write)
+    (h : saveOrder status g q = .ok ws) (x y : Nat) (hxy : Edge g status x y) (hx : stmt status x ∈ ws) :
+    Before (.insert y) (stmt status x) ws := by
+  obtain ⟨T, _⟩ := saveOrder_ok h
+  obtain ⟨ws1, ws2, hsplit⟩ := List.append_of_mem hx
+  obtain ⟨r, hr, ht, hc⟩ := hxy
+  have := T.ordered ws1 _ ws2 hsplit x rfl r hr (ht ▸ hc)
+  rw [ht] at this
+  obtain ⟨l1, l2, h1⟩ := List.append_of_mem this
+  exact ⟨l1, l2, ws2, by rw [hsplit, h1]⟩
+
+/-- a concrete non-trivial instance: 0 → 1 → 2 (all created), queued in the "wrong" order 0,1,2, plus a modified
+    object 3 whose dirty attribute points to 0 -/
+example : saveOrder [.created, .created, .created, .modified] [[⟨1, true⟩], [⟨2, true⟩], [], [⟨0, true⟩, ⟨2, false⟩]]
+    [some 3, some 0, some 1, some 2] = .ok [.insert 2, .insert 1, .insert 0, .update 3] := by rfl
+
+/-- every object of the queue is written exactly once, and nothing else is written -/
+theorem C16_each_once (status : List Status) (g : Graph) (q : List (Option Nat)) (ws : List Write)
+    (h : saveOrder status g q = .ok ws) :
+    ws.Nodup
+    ∧ (∀ w ∈ ws, ∃ x, Pending (statusOf status x) ∧ w = stmt status x)
+    ∧ (∀ x, some x ∈ q → ws.filter (fun w => w.obj? == some x) = [stmt status x]) := by
+  obtain ⟨T, hq⟩ := saveOrder_ok h
+  refine ⟨T.nodup, ?_, ?_⟩
+  · intro w hw
+    obtain ⟨y, hy, hp, _⟩ := T.writes w hw
+    exact ⟨y, hp, hy⟩
+  · intro x hx
+    apply filter_unique T.nodup (hq x hx).2
+    · intro b hb hpb
+      obtain ⟨y, hy, _, _⟩ := T.writes b hb
+      have : y = x := by
+        rw [hy, stmtOf_obj] at hpb; simpa using hpb
+      subst this; exact hy
+    · simp [stmt, stmtOf_obj]
+
+/-- a successful flush implies the queue was well formed (an entry with nothing to save hits `assert False`) -/
+theorem C16_ok_queue_wellformed (status : List Status) (g : Graph) (q : List (Option Nat)) (ws : List Write)
+    (h : saveOrder status g q = .ok ws) : QueueWellFormed status q :=
+  fun x hx => ((saveOrder_ok h).2 x hx).1
+
+/-! ### termination and the possible errors -/
+
+theorem saveOrder_err {status : List Status} {g : Graph} {q : List (Option Nat)} {e : Err}
+    (h : saveOrder status g q = .error e) :
+    e ≠ .outOfFuel
+    ∧ (∀ y, e = .badStatus y → some y ∈ q ∧ ¬ Pending (statusOf status y))
+    ∧ (∀ c, e = .cycle c → ∃ y, Relation.TransGen (Edge g status) y y) := by
+  unfold saveOrder at h
+  cases hr : saveQueue g (fuelFor status) q { status := status, out := [] } with
+  | ok s => simp [hr] at h
+  | error e' =>
+    simp [hr] at h; subst h
+    obtain ⟨h1, h2, h3⟩ := saveQueue_err g _ q _ e' (by simp [fuelFor]) hr
+    exact ⟨h1, fun y hy => ⟨(h2 y hy).1, (h2 y hy).2.1⟩, h3⟩
+
+/-- The recursion of `_save_` / `_save_principal_objects_` terminates: the fuel `number of objects + 1` is never
+    exhausted, whatever the graph (the `dependent_objects` check stops every descent after at most that many levels). -/
+theorem C16_terminates (status : List Status) (g : Graph) (q : List (Option Nat)) :
+    saveOrder status g q ≠ .error .outOfFuel := by
+  intro h; exact (saveOrder_err h).1 rfl
+
+/-- on a well-formed queue the only possible failure is `UnresolvableCyclicDependency` -/
+theorem C16_only_cycle_error (status : List Status) (g : Graph) (q : List (Option Nat)) (e : Err)
+    (hq : QueueWellFormed status q) (h : saveOrder status g q = .error e) : ∃ c, e = .cycle c := by
+  obtain ⟨h1, h2, _⟩ := saveOrder_err h
+  cases e with
+  | cycle c => exact ⟨c, rfl⟩
+  | badStatus y => exact absurd (hq y (h2 y rfl).1) (h2 y rfl).2
+  | outOfFuel => exact absurd rfl h1
+
+/-! ### (2) cycles -/
+
+/-- soundness of the error: when the flush raises `UnresolvableCyclicDependency`, the unsaved objects really contain a
+    reference cycle (every object on it is `created`) -/
+theorem C16_cycle_sound (status : List Status) (g : Graph) (q : List (Option Nat)) (c : List Nat)
+    (h : saveOrder status g q = .error (.cycle c)) :
+    ∃ y, statusOf status y = .created ∧ Relation.TransGen (Edge g status) y y := by
+  obtain ⟨y, p⟩ := (saveOrder_err h).2.2 c rfl
+  refine ⟨y, ?_, p⟩
+  cases p with
+  | single e => obtain ⟨_, _, _, hc⟩ := e; exact hc
+  | tail _ e => obtain ⟨_, _, _, hc⟩ := e; exact hc
+
+theorem idx_before {ws : List Write} (hn : ws.Nodup) {a b : Write} (h : Before a b ws) :
+    List.idxOf a ws < List.idxOf b ws := by
+  obtain ⟨l1, l2, l3, rfl⟩ := h
+  have ha1 : a ∉ l1 := by
+    intro ha
+    have := (List.nodup_append.mp (List.nodup_append.mp hn).1).2.2 a ha a (by simp)
+    exact this rfl
+  have hb : b ∉ l1 ++ a :: l2 := by
+    intro hb
+    have := (List.nodup_append.mp hn).2.2 b hb b (by simp)
+    exact this rfl
+  have h1 : List.idxOf a (l1 ++ a :: l2 ++ b :: l3) = l1.length := by
+    rw [List.append_assoc, List.idxOf_append]; simp [ha1]
+  have h2 : List.idxOf b (l1 ++ a :: l2 ++ b :: l3) = (l1 ++ a :: l2).length := by
+    rw [List.idxOf_append]; simp only [hb, if_false, List.idxOf_cons_self]; omega
+  rw [h1, h2]; simp
+
+/-- completeness: a reference cycle among unsaved objects that can be reached from the queue makes the flush fail -/
+theorem C16_cycle_fails (status : List Status) (g : Graph) (q : List (Option Nat)) (x y : Nat)
+    (hx : some x ∈ q) (hreach : x = y ∨ Relation.TransGen (Edge g status) x y)
+    (hcyc : Relation.TransGen (Edge g status) y y) : ∀ ws, saveOrder status g q ≠ .ok ws := by
+  intro ws h
+  obtain ⟨T, hq⟩ := saveOrder_ok h
+  have hn := T.nodup
+  -- along a path whose start is written, the index strictly decreases and the end is written
+  have step : ∀ a b, Relation.TransGen (Edge g status) a b → stmt status a ∈ ws →
+      stmt status b ∈ ws ∧ List.idxOf (stmt status b) ws < List.idxOf (stmt status a) ws := by
+    intro a b p
+    induction p with
+    | @single b e =>
+      intro ha
+      have hb := C16_topological status g q ws h a b e ha
+      have hcb : statusOf status b = .created := by obtain ⟨_, _, _, hc⟩ := e; exact hc
+      have hsb : stmt status b = .insert b := by simp [stmt, hcb, stmtOf]
+      rw [hsb]
+      refine ⟨?_, idx_before hn hb⟩
+      obtain ⟨l1, l2, l3, rfl⟩ := hb; simp
+    | @tail b c _ e ih =>
+      intro ha
+      obtain ⟨hb, hlt⟩ := ih ha
+      have hc := C16_topological status g q ws h b c e hb
+      have hcc : statusOf status c = .created := by obtain ⟨_, _, _, hc⟩ := e; exact hc
+      have hsc : stmt status c = .insert c := by simp [stmt, hcc, stmtOf]
+      rw [hsc]
+      refine ⟨?_, Nat.lt_trans (idx_before hn hc) hlt⟩
+      obtain ⟨l1, l2, l3, rfl⟩ := hc; simp
+  have hy : stmt status y ∈ ws := by
+    rcases hreach with rfl | p
+    · exact (hq x hx).2
+    · exact (step x y p (hq x hx).2).1
+  exact Nat.lt_irrefl _ (step y y hcyc hy).2
+
+/-- In a live session every created object sits in `objects_to_save`; then the flush raises
+    `UnresolvableCyclicDependency` exactly when the unsaved objects contain a reference cycle. -/
+theorem C16_cycle_iff (status : List Status) (g : Graph) (q : List (Option Nat))
+    (hq : QueueWellFormed status q) (hall : ∀ y, statusOf status y = .created → some y ∈ q) :
+    (∃ c, saveOrder status g q = .error (.cycle c)) ↔ ∃ y, Relation.TransGen (Edge g status) y y := by
+  constructor
+  · rintro ⟨c, h⟩
+    obtain ⟨y, _, p⟩ := C16_cycle_sound status g q c h
+    exact ⟨y, p⟩
+  · rintro ⟨y, p⟩
+    have hcy : statusOf status y = .created := by
+      cases p with
+      | single e => obtain ⟨_, _, _, hc⟩ := e; exact hc
+      | tail _ e => obtain ⟨_, _, _, hc⟩ := e; exact hc
+    have hfail := C16_cycle_fails status g q y y (hall y hcy) (Or.inl rfl) p
+    cases hr : saveOrder status g q with
+    | ok ws => exact absurd hr (hfail ws)
+    | error e =>
+      obtain ⟨c, rfl⟩ := C16_only_cycle_error status g q e hq hr
+      exact ⟨c, rfl⟩
+
+/-- the hypotheses of `C16_cycle_iff` are satisfiable with a cycle (two created objects referencing each other through
+    attributes, e.g. `A.b = Optional(B)` with its column on `A` and `B.pa = Optional(A)`): the model reports the chain -/
+example : saveOrder [.created, .created] [[⟨1, true⟩], [⟨0, true⟩]] [some 0, some 1] = .error (.cycle [0, 1]) := by rfl
+
+/-- ... and a modified object never closes a cycle (its row exists): loaded 0 gets a reference to new 1 which refers back -/
+example : saveOrder [.modified, .created] [[⟨1, true⟩], [⟨0, true⟩]] [some 0, some 1] = .ok [.insert 1, .update 0] := by rfl
+
+/-! ### (3) many-to-many link rows -/
+
+/-- the statements of one `SessionCache.flush`: link rows are removed before, and added after, all object writes; the
+    object writes in between are exactly what `saveOrder` emits -/
+theorem C16_m2m_bracket (ss : Session) (out : List Write) (h : flush ss = .ok out) :
+    ∃ mid, out = ss.removed.map (fun p => Write.unlink p.1 p.2) ++ mid ++ ss.added.map (fun p => Write.link p.1 p.2)
+      ∧ (∀ w ∈ mid, ∃ x, Pending (statusOf ss.status x) ∧ w = stmt ss.status x)
+      ∧ (∀ x, some x ∈ ss.queue → stmt ss.status x ∈ mid)
+      ∧ (∀ x y, Edge ss.refs ss.status x y → stmt ss.status x ∈ mid → Before (.insert y) (stmt ss.status x) mid) := by
+  unfold flush at h
+  simp only at h
+  cases hr : saveQueue ss.refs (fuelFor ss.status) ss.queue
+      { status := ss.status, out := ss.removed.map (fun p => Write.unlink p.1 p.2) } with
+  | error e => simp [hr] at h
+  | ok s =>
+    simp [hr] at h
+    obtain ⟨ws, ho, T, hq⟩ := run_trace (by intro w hw; simp at hw; obtain ⟨a, b, _, rfl⟩ := hw; rfl) hr
+    refine ⟨ws, by rw [← h, ho], ?_, fun x hx => (hq x hx).2, ?_⟩
+    · intro w hw
+      obtain ⟨y, hy, hp, _⟩ := T.writes w hw
+      exact ⟨y, hp, hy⟩
+    · intro x y hxy hx
+      obtain ⟨ws1, ws2, hsplit⟩ := List.append_of_mem hx
+      obtain ⟨r, hr, ht, hc⟩ := hxy
+      have := T.ordered ws1 _ ws2 hsplit x rfl r hr (ht ▸ hc)
+      rw [ht] at this
+      obtain ⟨l1, l2, h1⟩ := List.append_of_mem this
+      exact ⟨l1, l2, ws2, by rw [hsplit, h1]⟩
+
+example : flush { status := [.created, .other, .markedToDelete], refs := [[⟨1, true⟩], [], []], queue := [some 0, none, some 2],
+                  removed := [(2, 1)], added := [(0, 1)] }
+    = .ok [.unlink 2 1, .insert 0, .delete 2, .link 0 1] := by rfl
+
 end PonyVerif.Props.C16
